@@ -24,7 +24,7 @@ import (
 func init() {
 	Register(&Spec{
 		ID: "C15", Level: "exploration",
-		Rule: "cases = chains driven by the MT director (issue-class / mint new or existing / edit / transfer incl. to self / burn / transfer-class by owners and strangers, amounts over the whole uint64 range incl. balance+1, 2^64-1 and sums that overflow); after every successful tx the complete MT state (classes, tokens, supplies, raw balance store walk) is compared with an arbitrary-precision reference ledger; non-trivial = successful tx or targeted hostile rejection; distinct = distinct (op, actor role, amount class, outcome); since rounds 11-14: genesis battery (balances and supplies that agree, disagree, or agree only modulo 2^64), the owner addressing the id generated next, recipients in upper case, restart from the chain's own export in every fourth chain",
+		Rule: "cases = chains driven by the MT director (issue-class / mint new or existing / edit / transfer incl. to self / burn / transfer-class by owners and strangers, amounts over the whole uint64 range incl. balance+1, 2^64-1 and sums that overflow); after every successful tx the complete MT state (classes, tokens, supplies, raw balance store walk) is compared with an arbitrary-precision reference ledger; non-trivial = successful tx or targeted hostile rejection; distinct = distinct (op, actor role, amount class, outcome); since rounds 11-14: genesis battery (balances and supplies that agree, disagree, or agree only modulo 2^64), the owner addressing the id generated next, recipients in upper case, restart from the chain's own export in every fourth chain; since rounds 15-19: a mint into the class id the generator hands out next; snapshot panics judged (query-panicked)",
 		Assume: []string{"a failed tx leaves no trace because BaseApp drops its branch"},
 		Cases:  func(t string) int { return tierN(t, 16, 48) },
 		Run:    runMT,
